@@ -8,7 +8,11 @@ CONSTANTS
   EofWithData = TRUE
   ShapesA <- LocalShapes
   ShapesB <- AllShapes
-  DevDrainDeadline = FALSE
+  DevDeadlineAt = "none"
+  DevDeadlineHits = {"read"}
+  Monitor = FALSE
+  IdleMax = 2
+  DevMonNoFeed = FALSE
   DevCloseWriterFallback = FALSE
   Emit = @@EMIT@@
   Classes = {1, 2, 3, 4}
@@ -29,8 +33,9 @@ CONSTANTS
   DevNoInnerFlush = FALSE
   SockQueue = FALSE
   DevQueueRefs = FALSE
+  DevSockDeadline = FALSE
   DevDropOnClose = FALSE
 INIT UInit
 NEXT UNext
-INVARIANTS UTypeOK UDatagrams UComplete UCompleteAny UEncoded UFlushed UMutex UBuf UBatchFits
+INVARIANTS UTypeOK UDatagrams UComplete UCompleteAny UEncoded UFlushed UMutex UBuf UBatchFits UNoSpuriousEnd
 CHECK_DEADLOCK FALSE
